@@ -11,9 +11,11 @@ mod framework;
 mod harness;
 mod lin;
 mod scn_cont;
+mod scn_ctl;
 mod scn_exec;
 mod scn_hist;
 mod scn_multi;
+mod scn_own;
 mod payload;
 mod rng;
 mod scn_uni;
@@ -68,6 +70,10 @@ fn registry(property: &str) -> Option<PropertyCheck> {
         "C05" => PropertyCheck { parts: vec![Box::new(Part(Arc::new(scn_hist::Hist { property: "C05", flavour: scn_hist::Flavour::Teardown })))], rule: RULE_H, quick_s: 20, thorough_s: 600, assumptions: vec![], checked_build: false },
         "C09" => PropertyCheck { parts: vec![Box::new(Part(Arc::new(scn_multi::C09)))], rule: RULE_T, quick_s: 25, thorough_s: 900, assumptions: vec![], checked_build: false },
         "C17" => PropertyCheck { parts: vec![Box::new(Part(Arc::new(scn_multi::C17)))], rule: RULE_T, quick_s: 25, thorough_s: 900, assumptions: vec![], checked_build: false },
+        "C07" => PropertyCheck { parts: vec![Box::new(Part(Arc::new(scn_ctl::Cancel)))], rule: RULE_T, quick_s: 30, thorough_s: 900, assumptions: vec![], checked_build: false },
+        "C20" => PropertyCheck { parts: vec![Box::new(Part(Arc::new(scn_ctl::Suspend)))], rule: RULE_T, quick_s: 30, thorough_s: 900, assumptions: vec![], checked_build: false },
+        "C14" => PropertyCheck { parts: vec![Box::new(Part(Arc::new(scn_own::Handles)))], rule: RULE_T, quick_s: 25, thorough_s: 900, assumptions: vec![], checked_build: false },
+        "C19" => PropertyCheck { parts: vec![Box::new(Part(Arc::new(scn_own::Metrics)))], rule: RULE_T, quick_s: 20, thorough_s: 600, assumptions: vec![], checked_build: false },
         "C04" => PropertyCheck { parts: vec![Box::new(Part(Arc::new(scn_uni::C04Uni))), Box::new(Part(Arc::new(scn_multi::C04Multi)))], rule: RULE_T, quick_s: 40, thorough_s: 900, assumptions: vec![], checked_build: false },
         _ => return None,
     })
@@ -75,7 +81,7 @@ fn registry(property: &str) -> Option<PropertyCheck> {
 
 fn all_parts() -> Vec<Box<dyn PartRunner>> {
     let mut v: Vec<Box<dyn PartRunner>> = vec![];
-    for p in ["C01", "C02", "C03", "C04", "C05", "C06", "C08", "C10", "C15", "C16", "C09", "C17", "C11", "C12", "C13", "C18"] {
+    for p in ["C01", "C02", "C03", "C04", "C05", "C06", "C08", "C10", "C15", "C16", "C09", "C17", "C11", "C12", "C13", "C18", "C14", "C19", "C07", "C20"] {
         if let Some(pc) = registry(p) {
             v.extend(pc.parts);
         }
@@ -83,7 +89,51 @@ fn all_parts() -> Vec<Box<dyn PartRunner>> {
     v
 }
 
+/// shuttle-engine prints two lines to stderr whenever a simulated task unwinds (which is how a run is stopped on a
+/// verdict): filter exactly those lines out of this process' stderr, pass everything else through
+fn filter_stderr() {
+    use std::io::{BufRead, Write};
+    use std::os::fd::FromRawFd;
+    unsafe {
+        let mut fds = [0i32; 2];
+        if libc::pipe(fds.as_mut_ptr()) != 0 {
+            return;
+        }
+        let real = libc::dup(2);
+        if real < 0 || libc::dup2(fds[1], 2) < 0 {
+            return;
+        }
+        libc::close(fds[1]);
+        let reader = std::fs::File::from_raw_fd(fds[0]);
+        let mut real = std::fs::File::from_raw_fd(real);
+        let handle = std::thread::spawn(move || {
+            for line in std::io::BufReader::new(reader).split(b'\n').flatten() {
+                if line.starts_with(b"test panicked in task") || line.starts_with(b"Task failed, serializing schedule") {
+                    continue;
+                }
+                let _ = real.write_all(&line);
+                let _ = real.write_all(b"\n");
+            }
+        });
+        STDERR_FILTER.with(|s| *s.borrow_mut() = Some(handle));
+    }
+}
+
+thread_local! {
+    static STDERR_FILTER: std::cell::RefCell<Option<std::thread::JoinHandle<()>>> = const { std::cell::RefCell::new(None) };
+}
+
+/// flushes the stderr filter (closes the write end so that the filter thread drains and ends), then exits
+fn exit(code: i32) -> ! {
+    if let Some(h) = STDERR_FILTER.with(|s| s.borrow_mut().take()) {
+        unsafe { libc::close(2) };
+        let _ = h.join();
+    }
+    std::process::exit(code)
+}
+
 fn main() {
+    filter_stderr();
     let args: Vec<String> = std::env::args().collect();
     if args.len() < 2 {
         eprintln!("usage: sim check <Cxx> [quick|thorough] | sim replay <file> [--quiet]");
@@ -103,7 +153,7 @@ fn main() {
             let cfg = CheckCfg::from_env(tier, pc.quick_s, pc.thorough_s);
             println!("{} {}: VERIF_SEED={} budget={}s workers={}", property, tier.name(), cfg.verif_seed, cfg.budget.as_secs(), cfg.workers);
             let outcome = check_scenarios(&property, &cfg, pc.parts, pc.rule, pc.assumptions, pc.checked_build);
-            std::process::exit(outcome.exit_code);
+            exit(outcome.exit_code);
         }
         "replay" => {
             let path = args.get(2).cloned().unwrap_or_default();
@@ -133,7 +183,7 @@ fn main() {
                         println!("VIOLATION property={} replay={}", file.property, path);
                         println!("  reproduced: {} [{}]", file.violation.oracle, file.violation.key);
                     }
-                    std::process::exit(1);
+                    exit(1);
                 }
                 Ok(false) => {
                     if !quiet {
